@@ -754,6 +754,12 @@ func handleConnectionBindRequest(req Request, stunMsg *stun.Message) error {
 		stun.NewType(stun.MethodConnectionBind, stun.ClassSuccessResponse),
 		connectionID,
 	)...); err != nil {
+		// The peer connection has been claimed for this data connection (its
+		// bind timer is stopped) and the data connection is broken: give the
+		// peer connection up, otherwise it would stay open, unbindable, for
+		// as long as the allocation lives.
+		req.AllocationManager.RemoveTCPConnection(connectionID)
+
 		return err
 	}
 
